@@ -59,7 +59,7 @@ def gen_case(rng, params, idx):
 
     def mspec():
         nonlocal mid
-        ms = {"mid": mid, "t": rng.choice(TYPES), "kind": "leaf", "prio": rng.choice([0, 0, 0, 1])}
+        ms = {"mid": mid, "t": rng.choice(TYPES), "kind": rng.choice(["leaf", "leaf", "nextleaf"]), "prio": rng.choice([0, 0, 0, 1])}
         mid += 1
         return ms
 
